@@ -55,7 +55,11 @@ KEYS = list(range(6))
 CMPS = ["less", "greater", "tless", "half"]
 FAMS = ["ss", "fsv", "fip"]
 TRACKED = ["sst", "fst"]   # the same containers over the tracked key type
-STATIC = ("ss", "sst")
+# key types whose move assignment TRANSFERS state: sss / fss = static_set / flat_set over static_vector with a std::string
+# key beyond the small-string buffer; fbs / fbt = flat_set over a STD container (std::vector behind an adaptor with the
+# capacity / iterator preconditions) with the string / the tracked key: the control.  Capacities 3 and 8.
+KEYFAMS = ["sss", "fss", "fbs", "fbt"]
+STATIC = ("ss", "sst", "sss")
 
 
 def lst(ks):
@@ -154,6 +158,9 @@ QUICK_PLAN = {
     ("fip", "tless", 3): (False, 0.005),
     ("sst", "less", 3): (True, 0.005), ("sst", "half", 3): (True, 0.005), ("sst", "tless", 3): (True, 0.005),
     ("fst", "less", 3): (True, 0.005), ("fst", "half", 3): (True, 0.005), ("fst", "tless", 3): (True, 0.005),
+    ("fss", "less", 3): (False, 0.005), ("fss", "half", 3): (False, 0.005), ("fss", "tless", 3): (False, 0.005),
+    ("fss", "greater", 3): (False, 0.005), ("sss", "less", 3): (False, 0.005), ("sss", "half", 3): (False, 0.005),
+    ("fbs", "less", 3): (False, 0.005), ("fbt", "less", 3): (False, 0.005), ("fbt", "half", 3): (False, 0.005),
 }
 
 
@@ -355,9 +362,11 @@ def gen(tier, rng):
             n = rng.randint(5, 9)
             out.append(f"fms_{cmp} " + lst([rng.randint(0, 5) for _ in range(n)]))
     # --- 2. from every reachable set every call of the alphabet, then (sampled in quick) every pair of calls
-    for fam in FAMS + TRACKED:
+    for fam in FAMS + TRACKED + KEYFAMS:
         for cmp in CMPS:
             for cap in (3, 4):
+                if fam in KEYFAMS and cap != 3:
+                    continue
                 if quick:
                     if (fam, cmp, cap) not in QUICK_PLAN:
                         continue
@@ -395,9 +404,11 @@ def gen(tier, rng):
                     for o2 in alpha:
                         out.append(f"{head} {o1} {o2}")
     # --- 2d. every hint position x every key x every overload; named insert overloads; erase + later insertion
-    for fam in FAMS + TRACKED:
+    for fam in FAMS + TRACKED + KEYFAMS:
         for cmp in CMPS:
             for cap in (3, 4):
+                if fam in KEYFAMS and (cap != 3 or (quick and cmp != "less")):
+                    continue
                 if quick and ((fam, cmp, cap) not in QUICK_PLAN or cap == 4):
                     continue
                 if not quick and cap == 4 and not (cmp == "less" and fam in ("ss", "fsv")):
@@ -407,10 +418,12 @@ def gen(tier, rng):
         out += [c for c in targeted("fsd", "dyn", cap, quick)]
     # --- 2e. seeded random histories that stay inside the domain of every call (so the reference leg is defined
     #         and the sets grow: capacity 8 over keys -3..8, capacity 3/4 over 0..5)
-    for fam in FAMS + TRACKED + ["fsd"]:
+    for fam in FAMS + TRACKED + KEYFAMS + ["fsd"]:
         for cmp in (CMPS if fam != "fsd" else ["dyn"]):
-            for cap, universe in ((8, list(range(-3, 9))), (4 if fam != "fsd" else 3, KEYS)):
+            for cap, universe in ((8, list(range(-3, 9))), (3 if fam in KEYFAMS + ["fsd"] else 4, KEYS)):
                 if cap == 4 and fam in TRACKED and quick:
+                    continue
+                if cap == 3 and fam in KEYFAMS and quick:
                     continue
                 for _ in range((120 if cap == 8 else 60) if quick else 1500):
                     seq = valid_history(fam, cmp, cap, rng.randint(4, 16 if cap == 8 else 10), rng, universe)
@@ -452,7 +465,7 @@ def gen(tier, rng):
                     if rng.random() < 0.1:
                         out.append(f"{fam}_{cmp} {cap} " + " ".join(seq))
     # --- 4. seeded random longer histories, capacities 1 and 8, keys -3..8
-    for fam in FAMS + TRACKED:
+    for fam in FAMS + TRACKED + KEYFAMS:
         for cmp in CMPS:
             for cap in ((1, 8) if fam in FAMS else (8,)):
                 alpha = alphabet(fam, cap, cmp=cmp)
